@@ -215,6 +215,23 @@ pub fn gen_v1(t: &mut Tape) -> Case {
             };
         }
         "after-cr" => {
+            // one base in three is one of the longest legal lines (100..=107 bytes): the byte after the CR is then the
+            // only thing wrong with it, whatever a parser does near the length limit
+            let long_base: Option<Vec<u8>> = if t.chance(1, 3) {
+                let total = *t.pick(&[107usize, 107, 106, 105, 104, 103, 100]);
+                if t.coin() {
+                    let mut l = b"PROXY UNKNOWN ".to_vec();
+                    while l.len() < total - 2 {
+                        l.push(if t.chance(1, 9) { b' ' } else { b'a' + (l.len() % 26) as u8 });
+                    }
+                    Some(l)
+                } else {
+                    let l = gen::gen_tcp6_line_of_len(t, total);
+                    Some(l[..l.len() - 2].to_vec())
+                }
+            } else {
+                None
+            };
             let b = match t.weighted(&[2, 1]) {
                 0 => *t.pick(&[b'X', b'\r', 0u8, b' ', b'\t', b'P', 0x0b, 0x0c, b'0']),
                 _ => {
@@ -234,6 +251,10 @@ pub fn gen_v1(t: &mut Tape) -> Case {
             }
             if t.coin() {
                 p.ending.extend_from_slice(b"\n");
+            }
+            if let Some(mut l) = long_base {
+                l.extend_from_slice(&p.ending);
+                return Case { input: l, element: element.to_string() };
             }
         }
         "length" => {
